@@ -31,7 +31,7 @@ import (
 func TestMain(m *testing.M) {
 	logrus.SetOutput(io.Discard)
 	logrus.SetLevel(logrus.PanicLevel)
-	ev.C().Rule("rapid state machine over k8s.NewProvider with a fake clientset and fake watcher: pods with distinct names and IPs from a pool of 4 (an IP is re-used only after its holder was deleted); actions add / update (phase, host network, host IP, IP set/unset/changed, deletion timestamp, label and annotation edits) / delete / relist (the watch breaks, a drawn subset of pods disappears while it is down, the informer relists and reopens its watch) / lookup(ip) through Peek and IpSink->InfoSource; every watch event is followed by a sentinel-pod barrier; label and annotation regexes from a pool with and without the named group. Oracle: pod model at quiescent points. Non-trivial = a lookup that was memoised, then an invalidating event, then another lookup of the same IP")
+	ev.C().Rule("rapid state machine over k8s.NewProvider with a fake clientset and fake watcher: pods with distinct names and IPs from a pool of 4 (an IP is re-used only after its holder was deleted); actions add / update (phase, host network, host IP, IP set/unset/changed, deletion timestamp, label and annotation edits) / delete / relist (the watch breaks, a drawn subset of pods disappears while it is down, the informer relists and reopens its watch) / lookup(ip) through Peek and IpSink->InfoSource; every watch event is followed by a sentinel-pod barrier; label and annotation regexes from a pool with and without the named group. Oracle: pod model at quiescent points. In-flight layer: a lookup parked (through a logging hook) between reading the pod from the informer and memoising its answer, an update or delete observed meanwhile, the lookup released; later lookups must answer with the current pod. Non-trivial = a lookup that was memoised, then an invalidating event, then another lookup of the same IP; in-flight layer: the event changed the answer for the address while the lookup was parked")
 	vt.Main(m)
 }
 
